@@ -8,6 +8,7 @@ CONSTANTS
   BugUseFlagAll = FALSE
   BugOptionalOrigState = FALSE
   BugNames = "none"
+  BugErrorState = "none"
   BugMissingIsOther = TRUE
   BugUsage = "none"
 VIEW View
